@@ -1,6 +1,7 @@
 package http
 
 import (
+	"bytes"
 	"context"
 	"encoding/json"
 	"expvar"
@@ -511,6 +512,20 @@ func (s *Server) handlePostTx(w http.ResponseWriter, r *http.Request) {
 	}
 
 	// TODO(fwd): Prevent halt lock release during copy & apply.
+
+	// A forwarded transaction must extend the current position. Files that
+	// start at TXID 1 are exempt from that check in WriteLTXFileAt() because
+	// it also restores snapshots from a backup; from a halt lock holder such a
+	// file is only in sequence when the database has no transactions yet.
+	hdr, hdrData, err := ltx.DecodeHeader(r.Body)
+	if err != nil {
+		Error(w, r, fmt.Errorf("read ltx header: %s", err), http.StatusBadRequest)
+		return
+	} else if pos := db.Pos(); hdr.IsSnapshot() && pos.TXID != 0 {
+		Error(w, r, fmt.Errorf("non-sequential header minimum txid %s, expecting %s", hdr.MinTXID.String(), (pos.TXID+1).String()), http.StatusBadRequest)
+		return
+	}
+	r.Body = io.NopCloser(io.MultiReader(bytes.NewReader(hdrData), r.Body))
 
 	// Wrap request body in a chunked reader.
 	ltxPath, err := db.WriteLTXFileAt(r.Context(), r.Body)
